@@ -13,6 +13,7 @@ import (
 
 // VerifC02Informer describes one resource informer of a monitor.
 type VerifC02Informer struct {
+	ID        string
 	Namespace string
 	Name      string
 	Varying   bool
@@ -47,7 +48,7 @@ func VerifC02Describe(mon Monitor) []VerifC02Informer {
 			storeID = fmt.Sprintf("%p", f.shared.ForResource(ei.FactoryIndex.GVR).Informer())
 		}
 		DefaultFactoryStore.mu.Unlock()
-		res = append(res, VerifC02Informer{Namespace: ei.Namespace, Name: ei.Name, Varying: varying, Index: ei.FactoryIndex, CacheIDs: ids, Registered: reg, StoreID: storeID})
+		res = append(res, VerifC02Informer{ID: ei.id, Namespace: ei.Namespace, Name: ei.Name, Varying: varying, Index: ei.FactoryIndex, CacheIDs: ids, Registered: reg, StoreID: storeID})
 	}
 	for _, ei := range m.ResourceInformers {
 		one(ei, false)
